@@ -57,7 +57,7 @@ def clone(m):
     return {bk: {ck: {k: list(v) for k, v in cols.items()} for ck, cols in cats.items()} for bk, cats in m.items()}
 
 
-NOPS = 8
+NOPS = 9
 
 
 def step(flavour, f, model, op, a):
@@ -113,7 +113,7 @@ def step(flavour, f, model, op, a):
         c = f["b1"]["c1"]
         n = len(next(iter(model["b1"]["c1"].values())))
         if op == 4:
-            new = ["5", "6"][:n]
+            new = [str(5 + i) for i in range(n)]
             c[col] = np.array(new)
             model["b1"]["c1"][col] = new
         else:
@@ -142,6 +142,22 @@ def step(flavour, f, model, op, a):
         if any(len(cols) == 0 for cats in model.values() for cols in cats.values()):
             return f, True
         f = relazy(flavour, f)
+    elif op == 8:
+        # resize a whole category: read its row count, then replace EVERY column by one with one more row
+        # (the container passes through states with unequal column lengths; the final state is rectangular again)
+        if "b1" not in model or "c1" not in model["b1"] or not model["b1"]["c1"]:
+            return f, True
+        c = f["b1"]["c1"]
+        mcols = model["b1"]["c1"]
+        n = len(next(iter(mcols.values())))
+        if getattr(c, "row_count", n) != n:
+            return f, False
+        for col in list(mcols):
+            new = list(mcols[col]) + [str(a % 7)]
+            c[col] = np.array(new)
+            mcols[col] = new
+        if getattr(c, "row_count", n + 1) != n + 1:
+            return f, False
     return f, True
 
 
